@@ -314,7 +314,9 @@ class StmtMixin:
     def check_held(self, st, obj, attr):
         """ghost permission: fields declared lock-protected may only be touched while the lock is held"""
         prot = SP.FIELDS.get((obj.h or "") + "$protected", {})
-        if attr in prot and self.cur is not None and not self.cur.extra.get("constructor"):
+        if attr in prot and self.cur is not None and not self.cur.extra.get("constructor") and \
+                self.cur.qualname.startswith((obj.h or "?") + "."):
+            # the lock discipline binds the class's own methods; readers of the public attributes outside the class are not covered
             lock = self.hget(st, prot[attr], obj.t)
             held = z3.Or(*[h == lock for h in st.held]) if st.held else z3.BoolVal(False)
             if z3.is_true(z3.simplify(held)):
